@@ -443,9 +443,9 @@ static void run_dataset(const struct tcase *c, long idx)
                 const unsigned lags = (c->n <= 12) ? (unsigned)(c->n - 1) : (unsigned)ri(3, 8);
                 log_acf("acf", d, lags, 0, 0);
                 static const double as[] = { 1.0, 3.0, 0x1p-20, 0x1p10, 1e6, 0x1p40 };
-                static const double bs[] = { 0.0, 100.0, -37.5, 1.0 };
+                static const double bs[] = { 0.0, 100.0, -37.5, 1.0, 1e6, -1e6 };   /* in units of the value spacing: far beyond the spread too */
                 for (int im = 0; im < 2; im++) {
-                    int ai = (int)ri(0, 5), bi = (int)ri(0, 3);
+                    int ai = (int)ri(0, 5), bi = (int)ri(0, 5);
                     if (ai == 0 && bi == 0) bi = 1;
                     const double gap = (c->K >= 2) ? (val[2] - val[1]) : 1.0;
                     struct cmb_dataset *e = cmb_dataset_create();
